@@ -235,6 +235,11 @@ fn scenario(ctx: &Ctx, idx: u64) -> Report {
         let mut opts = SearchBedOpts::random(&mut rng, 150);
         opts.peers_max = *[1usize, 3].choose(&mut rng).unwrap();
         let bed = SearchBed::new(seed, &mut rng, opts.clone(), &target).await;
+        // nodes that hand out very long tokens (a fifth of the worlds, a third of their replies)
+        if rng.gen_bool(0.2) {
+            bed.world.lock().unwrap().long_tokens = 0.33;
+            report.count("worlds_handing_out_very_long_tokens");
+        }
         report.evaluations += 1;
         if !bed.bootstrapped {
             report.count("precondition_miss_not_bootstrapped");
